@@ -84,6 +84,8 @@ def writer_mechanism(s, known):
     quick = s.tier == "quick"
     for n in (1, 2, 3) if quick else (1, 2, 3, 4, 5):
         s.model("WriterMC", workers=8, constants={"N": n, "L": 4 if quick else 5})
+    if not quick:
+        s.apalache("WriterInd", [("Init", "IndInv", 0), ("IndInit", "IndInv", 1), ("IndInit", "EOTInv", 0)])
     s.model("WriterMC", cfg="WriterDevShared.cfg", workers=2, expect_violation="EOTInv")
     s.model("WriterMC", cfg="WriterDevDrop.cfg", workers=2, expect_violation="EOTInv")
     if not s.inproc_ok:
